@@ -523,8 +523,8 @@ pub fn run_c05(tier: Tier) -> i32 {
         .sum();
     let inputs_b = inputs_b + inputs_b2;
     // (c) mutations of valid packets; (d) chunkings; (e) max sizes
-    let grid4 = grid_v4(true);
-    let grid5 = grid_v5(true);
+    let grid4 = grid_v4(true, false);
+    let grid5 = grid_v5(true, false);
     let mut frames: Vec<(Vec<u8>, bool)> = vec![];
     for p in grid4.iter() {
         let mut b = BytesMut::new();
@@ -697,7 +697,12 @@ fn q5(q: u8) -> c5b::QoS {
     }
 }
 
-pub fn grid_v4(reduced: bool) -> Vec<c4::Packet> {
+fn id_near_boundary(i: u16) -> bool {
+    let near = |c: u32| (i as u32 + 3 >= c) && (i as u32 <= c + 3);
+    i <= 300 || near(0x1ff) || near(0x3fff) || near(0x7fff) || near(0x8000 + 0xff) || near(0xff00) || i >= 65280 || i % 257 == 0
+}
+
+pub fn grid_v4(reduced: bool, all_ids: bool) -> Vec<c4::Packet> {
     let mut g = vec![];
     // CONNECT
     let ids: Vec<String> = if reduced { vec!["a".into(), "".into()] } else { vec!["".into(), "a".into(), "é".into(), "c".repeat(127), "c".repeat(128), "c".repeat(65535)] };
@@ -787,8 +792,9 @@ pub fn grid_v4(reduced: bool) -> Vec<c4::Packet> {
         }
     }
     if !reduced {
-        // every packet id 1..=65535 in every id-carrying packet type
-        for id in 1..=u16::MAX {
+        // every packet id 1..=65535 in every id-carrying packet type (quick tier: the ids around
+        // every byte / width boundary only)
+        for id in (1..=u16::MAX).filter(|&i| all_ids || id_near_boundary(i)) {
             g.push(c4::Packet::PubAck(c4::PubAck::new(id)));
             g.push(c4::Packet::PubRec(c4::PubRec::new(id)));
             g.push(c4::Packet::PubRel(c4::PubRel::new(id)));
@@ -893,7 +899,7 @@ fn connack_props(set: &[usize]) -> Option<c5::ConnAckProperties> {
     })
 }
 
-pub fn grid_v5(reduced: bool) -> Vec<c5::Packet> {
+pub fn grid_v5(reduced: bool, all_ids: bool) -> Vec<c5::Packet> {
     let mut g = vec![];
     // CONNECT: every subset of the 9 properties; will x will-property subsets; logins
     let nconn = if reduced { 16 } else { 513 };
@@ -1137,8 +1143,9 @@ pub fn grid_v5(reduced: bool) -> Vec<c5::Packet> {
         }
     }
     if !reduced {
-        // every packet id 1..=65535 in every id-carrying packet type
-        for id in 1..=u16::MAX {
+        // every packet id 1..=65535 in every id-carrying packet type (quick tier: the ids around
+        // every byte / width boundary only)
+        for id in (1..=u16::MAX).filter(|&i| all_ids || id_near_boundary(i)) {
             g.push(c5::Packet::PubAck(c5::PubAck { pkid: id, reason: c5::PubAckReason::Success, properties: None }));
             g.push(c5::Packet::PubRec(c5::PubRec { pkid: id, reason: c5::PubRecReason::UnspecifiedError, properties: None }));
             g.push(c5::Packet::PubRel(c5::PubRel { pkid: id, reason: c5::PubRelReason::Success, properties: None }));
@@ -1314,8 +1321,9 @@ pub fn run_c04(tier: Tier) -> i32 {
     let mut ev = Evidence::new(P4, tier);
     let ctx = C4Ctx { reporter: &reporter, evals: AtomicU64::new(0), nontrivial: AtomicU64::new(0) };
     let quick = tier == Tier::Quick;
-    let g4 = grid_v4(quick);
-    let g5 = grid_v5(quick);
+    // quick: the whole grid, with the packet-id sweep restricted to ids near byte boundaries
+    let g4 = grid_v4(false, !quick);
+    let g5 = grid_v5(false, !quick);
     // ---- client v4 values
     g4.par_iter().for_each(|p| {
         let pkt = format!("{p:?}");
